@@ -59,10 +59,25 @@ def sweep2_cases(r, n):
         svz, svx = (1 if stz == 1 else 0), (1 if stx == 1 else 0)
         # put some neighbour times exactly on a guard threshold
         vref = slow[i - svz, j - svx]
-        k = int(r.integers(0, 6))
+        k = int(r.integers(0, 8))
         te = tt[i, j - stx]
         tv = tt[i - stz, j]
-        if k == 0:
+        if k in (6, 7) and far:
+            # steer into one of the two 3-point operators: the 4-point guard fails (one neighbour earlier than the
+            # diagonal one), the other neighbour is later than the diagonal one by less than the operator's limit,
+            # and the node's old value is large so that the 2-D candidate can win the minimum
+            tev = float(tt[i - stz, j - stx])
+            lim_e = dz * dz * vref / np.sqrt(dx * dx + dz * dz)
+            lim_v = dx * dx * vref / np.sqrt(dx * dx + dz * dz)
+            f = float(r.choice([0.25, 0.5, 0.75, r.uniform(0.05, 0.95)]))
+            if k == 6:
+                tt[i - stz, j] = tev - float(r.choice([0.5, 0.25]))
+                tt[i, j - stx] = tev + f * lim_e
+            else:
+                tt[i, j - stx] = tev - float(r.choice([0.5, 0.25]))
+                tt[i - stz, j] = tev + f * lim_v
+            tt[i, j] = tev + 50.0
+        elif k == 0:
             tt[i - stz, j] = te + dx * vref            # tv == te + dx*vref
         elif k == 1:
             tt[i, j - stx] = tv + dz * vref            # te == tv + dz*vref
